@@ -1,5 +1,8 @@
 import RoaringModel.Driver.Core
-/-! Driver handlers: 32-bit mutation and query ops (C01, C07, C16, C20) -/
+import RoaringModel.Mirror32
+/-! Driver handlers: 32-bit mutation and query ops (C01, C07, C16, C20).
+    `extend`/`from_iter`, `remove_smallest`/`remove_biggest`, `rank`, `eq` run the statement-by-statement mirrors of
+    `Mirror32.lean` (proved equal to the first model in `Lemmas/Mirror32.lean`). -/
 namespace Roaring.Driver
 open Roaring
 
@@ -49,19 +52,19 @@ def ops32 : Handler := fun st toks =>
     | none => pure (st, "panic")
   | "extend" :: d :: vs => do
     let (i, sl) ← b? d; let vs ← parseNats vs
-    pure (st.setB i ⟨Bitmap.extend sl.m vs, Spec.extend sl.s vs⟩, "ok")
+    pure (st.setB i ⟨Bitmap.extendMirror sl.m vs, Spec.extend sl.s vs⟩, "ok")
   | "from_iter" :: d :: vs => do
     let i ← parseSlot 'b' d; let vs ← parseNats vs
-    pure (st.setB i ⟨Bitmap.fromIter vs, Spec.extend [] vs⟩, "ok")
+    pure (st.setB i ⟨Bitmap.fromIterMirror vs, Spec.extend [] vs⟩, "ok")
   | ["clear", d] => do
     let (i, _) ← b? d
     pure (st.setB i ⟨[], []⟩, "ok")
   | ["remove_smallest", d, n] => do
     let (i, sl) ← b? d; let n ← parseU64 n
-    pure (st.setB i ⟨Bitmap.removeSmallest sl.m n, Spec.removeSmallest sl.s n⟩, "ok")
+    pure (st.setB i ⟨Bitmap.removeSmallestMirror sl.m n, Spec.removeSmallest sl.s n⟩, "ok")
   | ["remove_biggest", d, n] => do
     let (i, sl) ← b? d; let n ← parseU64 n
-    pure (st.setB i ⟨Bitmap.removeBiggest sl.m n, Spec.removeBiggest sl.s n⟩, "ok")
+    pure (st.setB i ⟨Bitmap.removeBiggestMirror sl.m n, Spec.removeBiggest sl.s n⟩, "ok")
   | ["contains", d, v] => do
     let (_, sl) ← b? d; let v ← parseU32 v
     pure (st, specMark (showBool (Bitmap.contains sl.m v)) (showBool (Spec.contains sl.s v)))
@@ -88,19 +91,21 @@ def ops32 : Handler := fun st toks =>
     pure (st, specMark (showOpt (Bitmap.max? sl.m)) (showOpt (Spec.max? sl.s)))
   | ["rank", d, v] => do
     let (_, sl) ← b? d; let v ← parseU32 v
-    pure (st, specMark (toString (Bitmap.rank sl.m v)) (toString (Spec.rank sl.s v)))
+    pure (st, specMark (toString (Bitmap.rankMirror sl.m v)) (toString (Spec.rank sl.s v)))
   | ["select", d, n] => do
     let (_, sl) ← b? d; let n ← parseU64 n
     pure (st, specMark (showOpt (Bitmap.select sl.m n)) (showOpt (Spec.select sl.s n)))
   | ["eq", a, b] => do
     let (_, x) ← b? a; let (_, y) ← b? b
-    pure (st, specMark (showBool (Bitmap.eq x.m y.m)) (showBool (x.s == y.s)))
+    pure (st, specMark (showBool (Bitmap.eqMirror x.m y.m)) (showBool (x.s == y.s)))
   | ["dump", d] => do
     let (_, sl) ← b? d
     let wf := if bitmapWF sl.m then "" else " !WF"
     let els := Bitmap.elems sl.m
     let setPart := if els == sl.s then dumpSet els else specMark (dumpSet els) (dumpSet sl.s)
-    pure (st, setPart ++ " | " ++ dumpRepr sl.m ++ wf)
+    match dumpRepr sl.m st.dbg with
+    | some repr => pure (st, setPart ++ " | " ++ repr ++ wf)
+    | none => pure (st, "panic")     -- `serialize_into` of an empty container with overflow checks on
   | ["dumpset", d] => do
     let (_, sl) ← b? d
     let els := Bitmap.elems sl.m
